@@ -899,5 +899,49 @@ func ruleCtorReentry(rule string) RuleFn {
 			good, why = false, "the marker is not restored by a deferred function (a failed or panicking build would leave the constructor unusable)"
 		}
 		c.Check(good, rule, cons, "building = true before BuildList; tested at entry; restored by defer", why, mark[0], nil)
+		// the decorator epoch: the one legitimate re-entry is told apart by comparing the number of decorator starts
+		// recorded with the marker against the current one - for EQUALITY - and every decorator start is counted
+		// before the decorator builds its arguments
+		cons2 := "constructorNode.Call tells re-entry through a decorator apart by the decorator-start counter"
+		var epochFacts []string
+		an.EdgesWhere(fn, func(ft an.Fact) bool {
+			if strings.Contains(ft.S, "buildingSince") || strings.Contains(ft.S, "decoratorsStarted") {
+				epochFacts = append(epochFacts, ft.S)
+			}
+			return false
+		})
+		eq := regexp.MustCompile(`^!?\((p:n\.buildingSince (==|!=) [^ ]*decoratorsStarted|[^ ]*decoratorsStarted (==|!=) p:n\.buildingSince)\)$`)
+		okEpoch := len(epochFacts) > 0
+		whyE := "the re-entry test does not consult the decorator-start counter: a decorator of a dependency that consumes this constructor's own result (accepted, acyclic in every view) is reported as a cycle"
+		for _, f := range epochFacts {
+			if !eq.MatchString(f) {
+				okEpoch, whyE = false, "the epoch test is "+f+", not an equality of constructorNode.buildingSince and Scope.decoratorsStarted: with an ordering test the guard never fires (the recorded count cannot exceed the current one) and the cross-scope cycle overflows the stack again"
+			}
+		}
+		sinceStored := false
+		for _, st := range an.StoresToField(fn, "constructorNode", "buildingSince") {
+			if strings.Contains(an.Norm(st.Val), "decoratorsStarted") {
+				sinceStored = true
+			}
+		}
+		if okEpoch && !sinceStored {
+			okEpoch, whyE = false, "the current decorator-start count is never recorded in constructorNode.buildingSince next to the marker"
+		}
+		c.Check(okEpoch, rule, cons2, "n.building && n.buildingSince == root.decoratorsStarted", whyE, mark[0], nil)
+		if dn := c.Fn(rule, "(*dig.decoratorNode).Call"); dn != nil {
+			var incs []ssa.Instruction
+			for _, st := range an.StoresToField(dn, "Scope", "decoratorsStarted") {
+				if v := an.Norm(st.Val); strings.Contains(v, "decoratorsStarted + 1") || strings.Contains(v, "1 + ") {
+					incs = append(incs, st)
+				}
+			}
+			goodInc := len(incs) > 0
+			for _, b := range an.CallsNamed(dn, "(dig.paramList).BuildList") {
+				if hit, _ := an.PathTo(dn, nil, an.IsInstr(b), an.NewGates().AddInstr(incs...)); hit != nil {
+					goodInc = false
+				}
+			}
+			c.Check(goodInc, rule, "decoratorNode.Call counts its start before it builds its arguments", "rootScope().decoratorsStarted++ dominates BuildList", "a decorator can build its arguments without having counted its start: the constructor it re-enters legitimately (it decorates one of that constructor's dependencies and consumes its result) sees an unchanged counter and reports a cycle", nil, nil)
+		}
 	}
 }
